@@ -2271,6 +2271,7 @@ func rulePadStart(c *Ctx) {
 		key := fmt.Sprintf("padNulls:loop#%d", li+1)
 		// the loop guard (any If in the body with an exit edge) compares idx with start
 		guarded := false
+		inexact := ""
 		for blk := range l.body {
 			iff := blockIf(blk)
 			if iff == nil {
@@ -2301,10 +2302,69 @@ func rulePadStart(c *Ctx) {
 				}
 				if (strip(bo.X) == idx && strip(bo.Y) == start) || (strip(bo.Y) == idx && strip(bo.X) == start) {
 					guarded = true
+					// exactly the indices from start on: with d = index - start the loop goes on iff d >= 0
+					off := func(v ssa.Value) int64 {
+						k := int64(0)
+						for d := 0; d < 4; d++ {
+							x, ok := v.(*ssa.BinOp)
+							if !ok {
+								break
+							}
+							if c, isC := constInt(x.Y); isC && x.Op == token.ADD {
+								k += c
+								v = x.X
+							} else if c, isC := constInt(x.Y); isC && x.Op == token.SUB {
+								k -= c
+								v = x.X
+							} else if c, isC := constInt(x.X); isC && x.Op == token.ADD {
+								k += c
+								v = x.Y
+							} else {
+								break
+							}
+						}
+						return k
+					}
+					kx, ky := off(bo.X), off(bo.Y)
+					idxLeft := strip(bo.X) == idx
+					contEdge := 0
+					if !l.body[blk.Succs[0]] {
+						contEdge = 1
+					}
+					for d := int64(-2); d <= 2; d++ {
+						var lhs, rhs int64
+						if idxLeft {
+							lhs, rhs = d+kx, ky
+						} else {
+							lhs, rhs = kx, d+ky
+						}
+						var t bool
+						switch bo.Op {
+						case token.LSS:
+							t = lhs < rhs
+						case token.LEQ:
+							t = lhs <= rhs
+						case token.GTR:
+							t = lhs > rhs
+						case token.GEQ:
+							t = lhs >= rhs
+						case token.EQL:
+							t = lhs == rhs
+						case token.NEQ:
+							t = lhs != rhs
+						}
+						cont := t == (contEdge == 0)
+						if cont != (d >= 0) {
+							inexact = fmt.Sprintf("with index = start%+d the loop %s", d, map[bool]string{true: "continues", false: "stops"}[cont])
+						}
+					}
 				}
 			}
 		}
 		c.Check(guarded, "PAD-START", key, l.header.Instrs[0].Pos(), "the loop that expands zero bytes is not bounded below by start: it re-expands padding of earlier calls")
+		if guarded {
+			c.Check(inexact == "", "PAD-START", key+":exact", l.header.Instrs[0].Pos(), "the expansion loop does not cover exactly the indices from start on (the range the zero bytes were counted over): "+inexact)
+		}
 	}
 	if n < 2 {
 		c.Undecided("PAD-START", "instance-count", fn.Pos(), fmt.Sprintf("%d examinations of the buffer found in padNulls (a count and an expansion loop are expected)", n))
